@@ -99,6 +99,42 @@ def ref_update(kind, before, delta):
     return np.matmul(L.exp_matrix(a, d), M0)
 
 
+def judge_system(ck, cfg, cor, solves, weights, regime, entry, wit, case_key, monitor="system"):
+    """The recorded (A, b) of every solve equal the documented system built from the corrector outputs and the weights."""
+    Rc = torch.cat([e["R_out"].reshape(-1) for e in cor])
+    Jc = torch.cat([e["J_out"].reshape(-1, e["J_out"].shape[-1]) for e in cor])
+    Wfull = optspy.expand_weight(weights, [e["R_in"] for e in cor]) if cfg["weight"] else None
+    ck.count(monitor, regime, key=case_key)
+    if cfg["opt"] == "GN":
+        A_exp = Jc if Wfull is None else Wfull @ Jc
+        b_exp = -Rc if Wfull is None else -(Wfull @ Rc)
+        s = solves[0]
+        sc = 1 + float(A_exp.abs().max())
+        ck.ratio(monitor, regime, float((s["A"] - A_exp).abs().max()), 1e-11 * sc, entry, "A_is_not_WJ", wit)
+        ck.ratio(monitor, regime, float((s["b"].reshape(-1) - b_exp).abs().max()), 1e-11 * (1 + float(b_exp.abs().max())), entry, "b_is_not_minus_WR", wit)
+        ck.check(len(solves) == 1, monitor, regime, entry, "gn_solved_more_than_once", wit)
+    else:
+        JT = Jc.T if Wfull is None else Jc.T @ Wfull
+        A0 = JT @ Jc
+        A0 = A0.clone()
+        A0.diagonal().clamp_(cfg["min"], cfg["max"])
+        b_exp = -(JT @ Rc)
+        Ak = A0
+        for ti, s in enumerate(solves):
+            lam = s["damping"]
+            Ak = Ak.clone()
+            Ak.diagonal().add_(Ak.diagonal() * lam)
+            sc = 1 + float(Ak.abs().max())
+            ck.ratio(monitor, regime, float((s["A"] - Ak).abs().max()), 1e-10 * sc, entry, "A_k_is_not_documented_recurrence",
+                     lambda: dict(wit, trial=ti + 1, damping=lam, clamp=cfg.get("clamp")))
+            ck.ratio(monitor, regime, float((s["b"].reshape(-1) - b_exp).abs().max()), 1e-10 * (1 + float(b_exp.abs().max())), entry,
+                     "b_is_not_minus_JtWR", lambda: dict(wit, trial=ti + 1))
+        if cfg.get("clamp") == "min_binds":
+            ck.mark("clamp/min_binds")
+        if cfg.get("clamp") == "max_binds":
+            ck.mark("clamp/max_binds")
+
+
 def check_step(ck, rng, spec, cfg, case_key):
     trace = optspy.Trace()
     model = spec["model"]
@@ -163,38 +199,7 @@ def check_step(ck, rng, spec, cfg, case_key):
     ck.ratio("assemble", regime, float((J_in - Jref).abs().max()), tolJ, entry, "jacobian_differs_from_finite_difference",
              lambda: dict(wit, max_abs_diff=float((J_in - Jref).abs().max()), fd_spread=spread))
     # ---- (2) the linear system handed to the solver
-    Rc = torch.cat([e["R_out"].reshape(-1) for e in cor])
-    Jc = torch.cat([e["J_out"].reshape(-1, e["J_out"].shape[-1]) for e in cor])
-    Wfull = optspy.expand_weight(weights, [e["R_in"] for e in cor]) if cfg["weight"] else None
-    ck.count("system", regime, key=case_key)
-    if cfg["opt"] == "GN":
-        A_exp = Jc if Wfull is None else Wfull @ Jc
-        b_exp = -Rc if Wfull is None else -(Wfull @ Rc)
-        s = solves[0]
-        sc = 1 + float(A_exp.abs().max())
-        ck.ratio("system", regime, float((s["A"] - A_exp).abs().max()), 1e-11 * sc, entry, "A_is_not_WJ", wit)
-        ck.ratio("system", regime, float((s["b"].reshape(-1) - b_exp).abs().max()), 1e-11 * (1 + float(b_exp.abs().max())), entry, "b_is_not_minus_WR", wit)
-        ck.check(len(solves) == 1, "system", regime, entry, "gn_solved_more_than_once", wit)
-    else:
-        JT = Jc.T if Wfull is None else Jc.T @ Wfull
-        A0 = JT @ Jc
-        A0 = A0.clone()
-        A0.diagonal().clamp_(cfg["min"], cfg["max"])
-        b_exp = -(JT @ Rc)
-        Ak = A0
-        for ti, s in enumerate(solves):
-            lam = s["damping"]
-            Ak = Ak.clone()
-            Ak.diagonal().add_(Ak.diagonal() * lam)
-            sc = 1 + float(Ak.abs().max())
-            ck.ratio("system", regime, float((s["A"] - Ak).abs().max()), 1e-10 * sc, entry, "A_k_is_not_documented_recurrence",
-                     lambda: dict(wit, trial=ti + 1, damping=lam, clamp=cfg.get("clamp")))
-            ck.ratio("system", regime, float((s["b"].reshape(-1) - b_exp).abs().max()), 1e-10 * (1 + float(b_exp.abs().max())), entry,
-                     "b_is_not_minus_JtWR", lambda: dict(wit, trial=ti + 1))
-        if cfg.get("clamp") == "min_binds":
-            ck.mark("clamp/min_binds")
-        if cfg.get("clamp") == "max_binds":
-            ck.mark("clamp/max_binds")
+    judge_system(ck, cfg, cor, solves, weights, regime, entry, wit, case_key)
     # ---- (3) the solver's answer solves the recorded system
     s = solves[0]
     if not s["raised"]:
@@ -283,6 +288,29 @@ def check_step(ck, rng, spec, cfg, case_key):
                      "parameters_changed_without_accepted_trial", dict(wit, param=n))
     if len(ck.samples) < 6:
         ck.sample({"model": spec["desc"], "config": cfg, "A_shape": list(solves[0]["A"].shape), "trials": len(solves)})
+    # ---- (5) history: a second step on the same optimiser after the caller updated the weight tensors IN PLACE (and, half of the
+    # time, the data): the second linear system must be built from the current weights, not from anything remembered
+    finite = all(torch.isfinite(v).all() for v in after.values())
+    if cfg["weight"] and finite and rng.random() < 0.7:
+        wl = weights if isinstance(weights, (list, tuple)) else [weights]
+        with torch.no_grad():
+            for w_ in wl:
+                w_.copy_(optmodels.spd(rng, tuple(w_.shape[:-2]), w_.shape[-1]))
+        start = len(trace.events)
+        try:
+            opt.step(data, target=target, weight=weights if cfg["weight_at"] == "step" else None)
+        except Exception as e:  # noqa
+            big = [float(e_["x"].abs().max()) for e_ in trace.events[start:] if e_["kind"] == "SOLVE" and "x" in e_]
+            if not (big and not (max(big) < 1e3)):
+                ck.violation("system.second_step", regime, entry, "raised:" + type(e).__name__, dict(wit, exception=repr(e)[:300]))
+            return
+        ev = trace.events[start:]
+        cor2 = sorted([e for e in ev if e["kind"] == "CORRECT"], key=lambda e: e["idx"])
+        sol2 = [e for e in ev if e["kind"] == "SOLVE"]
+        if cor2 and sol2:
+            judge_system(ck, cfg, cor2, sol2, weights, regime, entry, dict(wit, step="second, weights updated in place"), (case_key, 2),
+                         monitor="system.second_step")
+            ck.mark("system/second_step_after_inplace_weight_update")
 
 
 def run(ck):
@@ -300,6 +328,6 @@ def run(ck):
         check_step(ck, rng, spec, cfg, (ck.shard, i, spec["desc"]))
     for t in templates:
         ck.require("template/" + t)
-    ck.require("update/group_retraction", "update/frozen_seen", "clamp/min_binds", "clamp/max_binds")
+    ck.require("update/group_retraction", "update/frozen_seen", "clamp/min_binds", "clamp/max_binds", "system/second_step_after_inplace_weight_update")
     ck.floor("assemble", 30)
     ck.floor("system", 30)
